@@ -232,6 +232,8 @@ def special_items():
         dict(good, mem=(bytes([200]) + entry[1:]).hex()),            # key length runs past the end
         dict(good, mem=(entry[:26] + b"\xff\xff\xff\xff" + b"vv").hex()),   # value length runs past the end
         dict(good, alloc=1 << 60),                       # absurd allocation
+        dict(good, alloc=1 << 40),                       # an allocation the header check lets through: the receiver must not allocate it (D50)
+        dict(good, alloc=1 << 36),
         dict(good, badindex=True),
         dict(good, offset=0, mem="", hkeys={}),
     ]
